@@ -162,6 +162,8 @@ package keeper
 //@       && (forall i int :: 0 <= i && i <= MaxUint64 ==> Shard[i] == old(Shard[i]) && (has(Shard, i) <==> old(has(Shard, i))))
 //@       && (forall h int :: 0 <= h && h <= MaxUint64 ==> TimeoutOrder[h] == old(TimeoutOrder[h]) && (has(TimeoutOrder, h) <==> old(has(TimeoutOrder, h))))
 //@       && (forall a addr, d string :: bal(a, d) == old(bal(a, d)))
+//@   ensures [C12.timeout.keepcompleted] [C05.timeout.keepcompleted] old(has(Order, orderId)) && old(Order[orderId].Status) == OrderCompleted ==> has(Order, orderId)
+//@   at NewDecCoinFromCoin assert [C12.timeout.reduce] [C05.timeout.reduce] has(Order, orderId) && Order[orderId].Status == OrderCompleted && order.Status == OrderCompleted
 //@   ensures [C12.timeout.progress] old(has(Order, orderId)) && old(Order[orderId].Timeout) >= 1 && H + old(Order[orderId].Timeout) <= MaxUint64
 //@       && (old(Order[orderId].Status) != OrderCompleted ==> has(PaymentAddress, (old(Order[orderId].PaymentDid) != "" ? old(Order[orderId].PaymentDid) : old(Order[orderId].Owner)))
 //@             && old(Order[orderId].Amount.Amount) > 0 && oldbal(moduleAddr("order"), old(Order[orderId].Amount.Denom)) >= old(Order[orderId].Amount.Amount)
